@@ -843,12 +843,19 @@ func eqnil(i *interpreter, t types.Type, x, y value) value {
 				return (x != nil) == (y != nil)
 			case *closure:
 				return x == nil && y == nil
+			case *nativeFunc:
+				return (x != nil) == (y != nil)
 			}
 		case *closure:
 			switch y := y.(type) {
 			case *ssa.Function:
 				return (x != nil) == (y != nil)
 			case *closure:
+				return (x != nil) == (y != nil)
+			}
+		case *nativeFunc:
+			switch y := y.(type) {
+			case *ssa.Function:
 				return (x != nil) == (y != nil)
 			}
 		case []value:
